@@ -26,7 +26,8 @@ import vlib
 
 ASAN = dict(name="C13", cxx="clang++", extra=["-fsanitize=address,undefined", "-g", "-fno-sanitize-recover=undefined",
                                                "-fno-omit-frame-pointer"], tag="lib-asan")
-HARNESSES = ["C13"]
+PLAIN = dict(name="C13", extra=["-g", "-fstack-protector-all"])
+HARNESSES = [PLAIN, ASAN]
 MODEL = True
 TIMEOUT = 10
 
@@ -399,6 +400,9 @@ def hand_made():
         ("w-hugeexp.lp", "model", b"max\n 1e999999 x\nst\n c: 1e-999999 x <= -1e999999\nbounds\n x <= 1e999999\nend\n"),
         ("w-line256.mps", "model", mps_head.replace(b"ROWS\n", b"ROWS" + b" " * 300 + b"\n")),
         ("w-nan.mps", "model", mps_head.replace(b"   4", b" nan") + b"ENDATA\n"),
+        ("w-trunc.bas", "bas", b"NAME  afiro\n XU X01       R09\n UL X02\n"),
+        ("w-unknown.bas", "bas", b"NAME  afiro\n XU X01       NOSUCH\nENDATA\n"),
+        ("w-nofield.bas", "bas", b"NAME  afiro\n XU X01\n XL\nENDATA\n"),
         ("w-long.set", "set", b"int:iterlimit = 5\n" + b"x" * 600 + b"\nint:iterlimit = 7\n"),
         ("w-499.set", "set", b"y" * 499 + b"\n"),
         ("w-498.set", "set", b"bool:lifting = " + b"t" * 483 + b"\n"),
@@ -579,6 +583,9 @@ def gen_tok_cases(r, n):
             w = r.choice([full, short, full[:r.randint(0, len(full))], full + b"x", short + b" x", full.upper(), full + b"<=", full + b"]", short + b"]",
                           kw, full[:-1] + b"]", full + b" ]"])
             cases.append(("K", w + r.choice([b"", b" ", b" x", b":"]), kw))
+    # ratFromString multiplies by the double pow(10, exponent): exponents beyond the double range kill the process (finding
+    # crash:lpf:signal8, file-level witness w-hugeexp.lp); the in-process tie keeps them to the real reader
+    cases = [(("V",) + c[1:]) if (c[0] == "Q" and re.search(rb"[eE][+-]?\d{3,}", c[1])) else c for c in cases]
     # lengths around the array size (safe side only: the overflow side is a file-level witness)
     cases.append(("V", b"1" * 8191 + b" x"))
     cases.append(("N", b"y" * 8191 + b" <= 1"))
@@ -642,7 +649,7 @@ def run_tie_tok(ck, exe, model, rundir, n):
             if "val" in exp:
                 got["val"] = h.get("val")
         elif kind in ("N", "M"):
-            name = m["name"]
+            name = m["name"][:2 * 1023]          # NameSet::add stores at most SPX_MAXSTRLEN - 1 = 1023 characters
             if name == b"known".hex():
                 exp = {"consumed": m["consumed"], "idx": "0", "names": "1", "cols": "1", "name": name}
             elif kind == "N":
@@ -654,7 +661,7 @@ def run_tie_tok(ck, exe, model, rundir, n):
             if m["name"] == "none":
                 exp = {"ret": "0", "consumed": m["consumed"], "names": "0", "name": "-"}
             else:
-                exp = {"ret": "1", "consumed": m["consumed"], "names": "1", "name": m["name"]}
+                exp = {"ret": "1", "consumed": m["consumed"], "names": "1", "name": m["name"][:2 * 1023]}
             got = {x: h.get(x) for x in exp}
         else:
             t = ml[k].split()
@@ -676,15 +683,18 @@ def run_tie_tok(ck, exe, model, rundir, n):
 # runtime exploration
 # ----------------------------------------------------------------------------------------------------------------------
 
-SKIP_FRAMES = re.compile(r"__sanitizer|__asan|__interceptor|__ubsan|__lsan|stackToStderr|onSignal|^operator new|^operator delete|^malloc$|^realloc$|^calloc$|^free$")
+SKIP_FRAMES = re.compile(r"__sanitizer|__asan|__interceptor|__ubsan|__lsan|stackToStderr|onSignal|^operator new|^operator delete|^malloc$|^realloc$|^calloc$|^free$|"
+                         r"^testModel|^testBasis|^testSettings|^childMain|^runList|^main$|^checkLP|^touchAccessors|^solveAndReport|^clearReloadSolve|^_start|^__libc")
+READER_FILES = ("spxlpbase_real.hpp", "spxlpbase_rational.hpp", "mpsinput.cpp", "mpsinput.h", "spxlpbase.h", "spxbasis.hpp", "spxfileio.hpp", "rational.h")
+READER_FUNCS = ("_parseSettingsLine", "parseSettingsString", "loadSettingsFile", "_readFileReal", "_readFileRational", "readBasisFile", "readFile")
 
 
 def clean_fn(sym):
     """'double soplex::LPFreadValue<double>(char*&, soplex::SPxOut*)' -> 'LPFreadValue'"""
     s = sym
-    # drop template arguments
+    s = re.sub(r"\(boost::multiprecision::expression_template_option\)\d", "0", s)
     prev = None
-    while prev != s:
+    while prev != s:          # drop template arguments, innermost first
         prev = s
         s = re.sub(r"<[^<>]*>", "", s)
     s = s.split("(")[0].strip()
@@ -693,37 +703,63 @@ def clean_fn(sym):
 
 
 def frames_of(text):
-    """[(function, is_soplex)] from a sanitizer / __sanitizer_print_stack_trace report"""
+    """[(function, raw symbol, location)] from a sanitizer report / __sanitizer_print_stack_trace output"""
     out = []
-    for m in re.finditer(r"#\d+ 0x[0-9a-f]+ in (.+?) (/\S+|\(\S+\))", text):
-        fn, loc = m.group(1), m.group(2)
-        if SKIP_FRAMES.search(fn):
+    for l in text.splitlines():
+        m = re.match(r"\s*#\d+ 0x[0-9a-f]+ in (.+)$", l)
+        if not m:
             continue
-        is_sp = ("soplex::" in fn) or ("/src/soplex" in loc)
-        out.append((clean_fn(fn), is_sp, fn, loc))
+        rest = re.sub(r"\s*\(BuildId: [0-9a-f]+\)\s*$", "", m.group(1))
+        if " " in rest:
+            fn, loc = rest.rsplit(" ", 1)
+        else:
+            fn, loc = rest, ""
+        c = clean_fn(fn)
+        if SKIP_FRAMES.search(c) or SKIP_FRAMES.search(fn):
+            continue
+        out.append((c, fn, loc))
     return out
 
 
-def top_soplex(text):
-    fr = frames_of(text)
-    for f in fr:
-        if f[1]:
-            return f[0]
-    return fr[0][0] if fr else "?"
-
-
-def addr2line_frames(exe, text):
-    """plain build: backtrace_symbols_fd lines 'exe(+0x1234)[0x...]' -> function names"""
-    offs = re.findall(r"\(\+(0x[0-9a-f]+)\)", text)
-    names = re.findall(r"\(([A-Za-z_][A-Za-z_0-9]*)\+0x[0-9a-f]+\)", text)
+def plain_frames(exe, text):
+    """plain build: backtrace_symbols_fd lines 'exe(+0x1234)[0x...]' -> [(function, raw, location)] through addr2line -i"""
+    offs = re.findall(r"C13\.plain\(\+(0x[0-9a-f]+)\)", text)
     if not offs:
-        return names
+        return []
     try:
-        p = subprocess.run(["addr2line", "-f", "-C", "-e", exe] + offs[:24], stdout=subprocess.PIPE, stderr=subprocess.DEVNULL, text=True, timeout=60)
-        fl = p.stdout.splitlines()[0::2]
-        return [clean_fn(f) for f in fl if f and f != "??"] + names
+        p = subprocess.run(["addr2line", "-a", "-f", "-C", "-i", "-e", exe] + offs[:24], stdout=subprocess.PIPE, stderr=subprocess.DEVNULL, text=True, timeout=120)
     except Exception:
-        return names
+        return []
+    out = []
+    ls = p.stdout.splitlines()
+    k = 0
+    while k < len(ls):
+        if ls[k].startswith("0x"):
+            k += 1
+            continue
+        fn = ls[k]
+        loc = ls[k + 1] if k + 1 < len(ls) else ""
+        k += 2
+        c = clean_fn(fn)
+        if fn == "??" or SKIP_FRAMES.search(c):
+            continue
+        out.append((c, fn, loc))
+    return out
+
+
+def pick_top(frames):
+    for c, fn, loc in frames:
+        base = os.path.basename(loc.split(":")[0])
+        if base in READER_FILES or c in READER_FUNCS or "MPSInput::" in fn:
+            return c
+    for c, fn, loc in frames:
+        if "soplex::" in fn or "/src/soplex" in loc:
+            return c
+    return frames[0][0] if frames else "?"
+
+
+def top_soplex(text):
+    return pick_top(frames_of(text))
 
 
 def reader_of(test, data):
@@ -747,6 +783,12 @@ def classify(exe, asan, test, data, lines, end):
             res.append(("%s:%s:%s" % (t[0], rd, t[1]), l))
         if l.startswith("exception "):
             res.append(("exception:%s:%s" % (rd, l.split()[1]), l))
+    # an LP that came out of the reader with duplicate entries / NaN / unmirrored storage is the finding; what the solver does
+    # with it afterwards (exceptions, overruns in the presolver) is a consequence and would only multiply signatures
+    broken_lp = [x for x in res if re.search(r":(duplicate-entries|mirror|index-range|nan-in-data|infinite-coefficient)$", x[0])]
+    if broken_lp and not (how == "exit" and code == 0):
+        res = [(sg, w + " [the later %s=%d of the post-read sequence is attributed to this]" % (how, code)) for sg, w in broken_lp]
+        return res, "ok"
     if how == "exit" and code == 0:
         if "done" not in lines:
             res.append(("early-exit:%s" % rd, "child exited 0 before the end of the sequence"))
@@ -755,8 +797,8 @@ def classify(exe, asan, test, data, lines, end):
     if how == "exit" and code == 3:
         return res, "exception"
     if "C13-SIGNAL 14" in err or (how == "exit" and code == 124) or (how == "signal" and code == 14):
-        fn = top_soplex(err) if asan else next((f for f in addr2line_frames(exe, err) if f not in ("onSignal", "stackToStderr", "getline", "??")), "?")
-        res.append(("hang:%s:%s" % (rd, fn), "no result within %d s; stack: %s" % (TIMEOUT, " < ".join([f[0] for f in frames_of(err)][:6]) if asan else fn)))
+        fr = frames_of(err) if asan else plain_frames(exe, err)
+        res.append(("hang:%s:%s" % (rd, pick_top(fr)), "no result within %d s; stack: %s" % (TIMEOUT, " < ".join([f[0] for f in fr][:6]))))
         return res, "hang"
     k = re.search(r"ERROR: AddressSanitizer: (\S+)", err)
     if k:
@@ -783,13 +825,12 @@ def classify(exe, asan, test, data, lines, end):
         res.append(("leak:%s:%s" % (rd, top), "LeakSanitizer: %s; allocation stacks: %s" % (re.search(r"SUMMARY: (.*)", err).group(1) if "SUMMARY" in err else "", ", ".join(sorted(set(tops))[:5]))))
         return res, "leak"
     sig = code if how == "signal" else code - 100
-    fn = "?"
-    if "C13-SIGNAL" in err:
-        fs = [f for f in addr2line_frames(exe, err) if f not in ("onSignal", "stackToStderr", "??", "main", "runList", "childMain")]
-        fn = fs[0] if fs else "?"
-    if asan:
-        fn = top_soplex(err)
-    res.append(("crash:%s:signal%d:%s" % (rd, sig, fn), "process died with signal %d (%s=%d); stderr tail: %s" % (sig, how, code, err[-300:].replace("\n", " | "))))
+    fr = frames_of(err) if asan else plain_frames(exe, err)
+    if "stack smashing detected" in err:
+        res.append(("crash:%s:stack-smashing" % rd, "*** stack smashing detected *** (a stack array was overrun), then signal %d" % sig))
+        return res, outcome
+    res.append(("crash:%s:signal%d:%s" % (rd, sig, pick_top(fr)), "process died with signal %d (%s=%d)%s; stack: %s"
+                % (sig, how, code, " [stack smashing detected]" if "stack smashing" in err else "", " < ".join([f[0] for f in fr][:6]))))
     return res, outcome
 
 
@@ -799,6 +840,8 @@ def run_files(ck, exe, asan, items, rundir, workers, tag):
     env["ASAN_OPTIONS"] = "detect_leaks=1:handle_abort=1:allocator_may_return_null=1:detect_stack_use_after_return=0:malloc_context_size=12"
     env["UBSAN_OPTIONS"] = "print_stacktrace=1"
     env["LSAN_OPTIONS"] = "exitcode=78"
+    env["MALLOC_CHECK_"] = "3"
+    env["MALLOC_PERTURB_"] = "165"
     chunks = [[] for _ in range(workers)]
     for k, it in enumerate(items):
         chunks[k % workers].append((k, it))
@@ -844,6 +887,8 @@ def run_files(ck, exe, asan, items, rundir, workers, tag):
         okflag = re.search(r"ok=(\d)", rl)
         if outcome == "ok":
             outcome = "ok-success" if (okflag and okflag.group(1) == "1") else "ok-failure-clean"
+            if any(l.startswith("skipped") for l in lines):
+                outcome = "inconsistent-lp"
         ck.count("%s:%s:%s" % (tag, rd, outcome))
         ck.count("family:" + it["family"])
         ck.evaluated((it["test"], hashlib.sha1(it["data"]).hexdigest(), tag), nontrivial=bool(it["data"]))
@@ -883,6 +928,8 @@ def build_inputs(ck, rundir, quick):
     seen = set()
     if os.path.isdir(cdir):
         for f in sorted(os.listdir(cdir)):
+            if not f.endswith((".lp", ".mps", ".bas", ".set")):
+                continue
             data = open(os.path.join(cdir, f), "rb").read()
             seen.add(f)
             if f.endswith(".set"):
@@ -893,9 +940,15 @@ def build_inputs(ck, rundir, quick):
             else:
                 for t in modes[:2]:
                     add("c-%s-%s" % (t, f), t, data, "corpus")
+    have = set(hashlib.sha1(it["data"]).hexdigest() for it in items)
     for name, kind, data in hand_made():
+        if hashlib.sha1(data).hexdigest() in have:
+            continue
         if kind == "set":
             add(name, "set", data, "witness")
+        elif kind == "bas":
+            for t in ("bas0", "bas1"):
+                add("%s-%s" % (t, name), t, data, "witness", GOOD)
         else:
             for t in (modes if not quick else modes[:2]):
                 add("%s-%s" % (t, name), t, data, "witness")
@@ -994,7 +1047,7 @@ def main():
     with KeepAlive():
         proved = ck.prove()
         try:
-            exe0 = vlib.build_harness("C13")
+            exe0 = vlib.build_harness(**PLAIN)
         except vlib.BuildError as e:
             ck.violation("harness-build", "the harness does not compile against the current tree: %s" % str(e)[-600:], {"kind": "build"}, no_input=True)
             ck.finish()
